@@ -43,16 +43,19 @@ func weatherProjects(c *core.Ctx, n int) []*gen.Project {
 	var ps []*gen.Project
 	for i := 0; i < n; i++ {
 		r := rngFor(c, 400+int64(i))
-		layout := i % 3
+		layout := (i + i/3) % 3 // every arm below (selected by i modulo 4, 5, 6) meets every layout
 		o := gen.Opts{Years: 1 + r.Intn(3), MinLayers: 2, MaxLayers: 8, NoCrops: true, Layouts: []int{layout}, ETMethods: []int{2, 3, 4}, BeginAnyDay: true,
 			DateFormats: []int{0, 1, 2, 3}}
+		if i%6 == 3 {
+			o.Years = 2 + r.Intn(2) // room for a shorter run of the same project before this one
+		}
 		// start years around leap boundaries
 		o.StartYearMin, o.StartYearMax = 1995, 2012
 		if i%4 == 0 {
 			y := []int{1999, 2003, 2007, 2011, 1983}[r.Intn(5)]
 			o.StartYearMin, o.StartYearMax = y, y
 		}
-		leapTail := i%6 == 1 && layout != 0 && i%12 == 7
+		leapTail := i%6 == 1 && layout != 0 && (i%12 == 1 || i%18 == 7)
 		if leapTail {
 			// the last day of a LEAP year that is not the last year is missing (the year still has 365 records)
 			y := []int{1999, 2003, 2007, 2011, 1983}[r.Intn(5)]
@@ -158,6 +161,16 @@ func weatherProjects(c *core.Ctx, n int) []*gen.Project {
 				sentinel(k, 1)
 			}
 		}
+		// the optional third header line: station altitude and a wind height other than 2 m (the record stays the record)
+		if (i%4 == 2 || i%6 == 5) && layout != 2 {
+			w.NumHeader, w.Height, w.WindHeight = 3, float64(p.Cfg.Alt), []float64{10, 10, 3.5}[r.Intn(3)]
+		}
+		// a shorter run of the same project (earlier end date on its line) precedes the run in the same session: what the
+		// session keeps of the weather file must not shorten or shift what this run reads
+		selfWarm := i%6 == 3 && layout != 0 && p.Cfg.End-400 > p.Rotation[0].Harv+30
+		if selfWarm {
+			p.SelfWarm = []string{"EndDate=" + gen.DateText(p.Cfg.End-366-r.Intn(30), p.Cfg.DateFormat, "")}
+		}
 		if i%3 == 2 {
 			p.Cfg.PreCorr = 1
 			w.Preco = make([]int, 12)
@@ -165,7 +178,7 @@ func weatherProjects(c *core.Ctx, n int) []*gen.Project {
 				w.Preco[m] = 100 + r.Intn(30)
 			}
 		}
-		arms := fmt.Sprintf("layout=%d years=%d preco=%d hasSun=%v fileStartsEarlier=%v fileEndsLater=%v", layout, o.Years, p.Cfg.PreCorr, w.HasSun, firstYear < p.Cfg.StartYear, endsLater)
+		arms := fmt.Sprintf("layout=%d years=%d preco=%d hasSun=%v fileStartsEarlier=%v fileEndsLater=%v header=%d windHeight=%v shorterRunFirst=%v", layout, o.Years, p.Cfg.PreCorr, w.HasSun, firstYear < p.Cfg.StartYear, endsLater, w.NumHeader, w.WindHeight, selfWarm)
 		// negative inputs: the series does not cover the simulated period
 		switch {
 		case i%6 == 4: // series ends early
